@@ -108,6 +108,12 @@ def check_visitor(ctx: Ctx, env, A: SqlAnalysis, langs, done: Dict[str, Dict[str
         else:
             ctx.ok("R2.no-placeholder", f"{vs}|{kind}", "handler present", nontrivial=False)
 
+    # a literal must stand in the SQL with its own value whatever case the user typed its keyword letters in (TRUE, 1E3, ...t...z)
+    from .c19 import CASE_VARIANT_KINDS, check_backend_case, check_py_val_case
+    if not getattr(ctx, "_case_rule_done", False):
+        ctx._case_rule_done = True
+        check_py_val_case(ctx, env, "R1.literal-independent-of-case")
+    check_backend_case(ctx, env, list(CASE_VARIANT_KINDS), "R1.literal-independent-of-case", only=lambda v: v == A.vcls)
     from .common import check_shared_caches
     check_shared_caches(ctx, [t.path for t in A.all_tmpls()], "R6.no-state-shared-between-visitors",
                         "a visitor configured differently (another table alias) emits what an earlier visitor computed",
